@@ -3,7 +3,7 @@
    or was set by an addon; consequences for hooks and for the bytes sent to the client.
    Also: when a response hook can fire while a client message is handled (stale replay). *)
 From Coq Require Import List Bool Arith NArith Lia.
-From MV Require Import Base.Bytes Model.DnsLayer.
+From MV Require Import Base.Bytes Model.DnsLayer Proofs.DnsLayerFrame Proofs.DnsLayerSeg.
 Import ListNotations.
 
 Lemma find_set_flow i j f l :
@@ -44,7 +44,12 @@ Definition req_ok (cq : list message) (i : N) (f : flow) : Prop :=
 Definition fl_ok (cq sm : list message) (i : N) (f : flow) : Prop :=
   req_ok cq i f /\ forall r, f_resp f = Some r -> resp_ok sm i r.
 
-Definition script_ok (sc : list act) : Prop := forall m, In (ASetResp m) sc -> A m.
+Definition script_ok (sc : list act) : Prop :=
+  (forall m, In (ASetResp m) sc -> A m)
+  /\ (forall rc n an q, In (AResolve rc n an) sc -> A (resolved q rc n an)).
+
+Definition act_ok (a : act) : Prop :=
+  (forall m, a = ASetResp m -> A m) /\ (forall rc n an q, a = AResolve rc n an -> A (resolved q rc n an)).
 
 Definition flows_ok (cq sm : list message) (fl : list (N * flow)) : Prop :=
   forall i f, find_flow i fl = Some f -> fl_ok cq sm i f.
@@ -128,29 +133,35 @@ Proof. unfold pop_act. destruct (s_script s); repeat split. Qed.
 
 Lemma pop_act_script s :
   script_ok (s_script s) ->
-  script_ok (s_script (snd (pop_act s))) /\ forall m, fst (pop_act s) = ASetResp m -> A m.
+  script_ok (s_script (snd (pop_act s))) /\ act_ok (fst (pop_act s)).
 Proof.
-  unfold pop_act. intros H. destruct (s_script s) as [|a sc] eqn:E; cbn [fst snd].
-  - split; [rewrite E; exact H | discriminate].
-  - split.
-    + cbn. intros m Hm. apply H. right. exact Hm.
-    + intros m Hm. apply H. left. exact Hm.
+  unfold pop_act. intros [H1 H2]. destruct (s_script s) as [|a sc] eqn:E; cbn [fst snd].
+  - split; [rewrite E; split; assumption | split; discriminate].
+  - split; split.
+    + cbn. intros m Hm. apply H1. right. exact Hm.
+    + cbn. intros rc n an q Hm. apply H2. right. exact Hm.
+    + intros m Hm. apply H1. left. exact Hm.
+    + intros rc n an q Hm. apply H2. left. exact Hm.
 Qed.
 
 Lemma pop_act_incl s : incl (s_script (snd (pop_act s))) (s_script s)
-  /\ forall m, fst (pop_act s) = ASetResp m -> In (ASetResp m) (s_script s).
+  /\ (fst (pop_act s) = ANone \/ In (fst (pop_act s)) (s_script s)).
 Proof.
   unfold pop_act. destruct (s_script s) as [|a sc] eqn:E; cbn [fst snd].
-  - rewrite E. split; [apply incl_refl | discriminate].
-  - cbn. split; [apply incl_tl, incl_refl | intros m Hm; left; exact Hm].
+  - rewrite E. split; [apply incl_refl | left; reflexivity].
+  - cbn. split; [apply incl_tl, incl_refl | right; left; reflexivity].
 Qed.
 
 Lemma apply_act_ok cq sm i a f :
-  (forall m, a = ASetResp m -> A m) -> fl_ok cq sm i f -> fl_ok cq sm i (apply_act a f).
+  act_ok a -> fl_ok cq sm i f -> fl_ok cq sm i (apply_act a f).
 Proof.
-  intros Ha [H1 H2]. destruct a; cbn; split; try exact H1; try exact H2.
-  - intros r Hr. cbn in Hr. inversion Hr; subst. left. apply Ha. reflexivity.
-  - intros r Hr. discriminate.
+  intros [Ha Hb] [H1 H2]. split.
+  - unfold req_ok. rewrite apply_act_req. exact H1.
+  - destruct a; cbn [apply_act]; try exact H2.
+    + intros r Hr. cbn in Hr. inversion Hr; subst. left. apply Ha. reflexivity.
+    + intros r Hr. discriminate.
+    + destruct (f_req f) as [q|]; [|exact H2].
+      intros r Hr. cbn in Hr. inversion Hr; subst. left. apply Hb. reflexivity.
 Qed.
 
 Lemma flows_ok_put cq sm fl i f :
@@ -211,7 +222,7 @@ Proof.
   assert (F1 : fl_ok (s_cq s) (s_sm s) i f1).
   { split; [unfold req_ok; cbn; rewrite Hq; auto | exact Hr]. }
   assert (F2 : fl_ok (s_cq s) (s_sm s) i (apply_act a f1)) by (apply apply_act_ok; assumption).
-  assert (E : f_req (apply_act a f1) = Some q) by (destruct a; cbn; exact Hq).
+  assert (E : f_req (apply_act a f1) = Some q) by (rewrite apply_act_req; exact Hq).
   rewrite E. unfold post. cbn [fst snd]. split; [|split; [|split]].
   - split; cbn; [exact P4|]. rewrite P1, P2, P3. apply flows_ok_put; assumption.
   - cbn. exact P2.
@@ -261,7 +272,7 @@ Proof.
   assert (F1 : fl_ok (s_cq s) (s_sm s) i f1).
   { split; [unfold req_ok; cbn; auto | exact Hr]. }
   assert (F2 : fl_ok (s_cq s) (s_sm s) i (apply_act a f1)) by (apply apply_act_ok; assumption).
-  assert (E : f_req (apply_act a f1) = Some m) by (destruct a; reflexivity).
+  assert (E : f_req (apply_act a f1) = Some m) by (rewrite apply_act_req; reflexivity).
   set (f2 := apply_act a f1) in *.
   assert (I1 : Inv s1) by (split; [exact P4 | rewrite P1, P2, P3; exact Hf]).
   assert (Hh : forall ctx, out_good (s_cq s) (s_sm s) ctx (hook_of HReq f1)).
@@ -416,10 +427,18 @@ End Inv.
 
 (* ---------- from the initial state ---------- *)
 
-Definition addon_msg (script : list act) (m : message) : Prop := In (ASetResp m) script.
+(* a message the addons of this run may set as a response: one given explicitly, or the answer
+   the resolver builds from some request *)
+Definition addon_msg (script : list act) (m : message) : Prop :=
+  In (ASetResp m) script \/ exists rc n an q, In (AResolve rc n an) script /\ m = resolved q rc n an.
 
 Lemma Inv_init c script conn : Inv c (addon_msg script) (init script conn).
-Proof. split; [intros m Hm; exact Hm | intros i f Hf; discriminate]. Qed.
+Proof.
+  split; [split|].
+  - intros m Hm. left. exact Hm.
+  - intros rc n an q Hm. right. exists rc, n, an, q. split; [exact Hm | reflexivity].
+  - intros i f Hf. discriminate.
+Qed.
 
 Lemma run_good unpack c script conn es :
   let r := run unpack c (init script conn) es in
@@ -486,7 +505,9 @@ Section Stale.
 Variable c : cfg.
 
 Definition resp_hooks_from (sc : list act) (outs : list out) : Prop :=
-  forall ord rq rs e, In (OHook HResp ord rq rs e) outs -> exists r, rs = Some r /\ In (ASetResp r) sc.
+  forall ord rq rs e, In (OHook HResp ord rq rs e) outs ->
+    exists r, rs = Some r /\
+      (In (ASetResp r) sc \/ exists rc n an q, In (AResolve rc n an) sc /\ rq = Some q /\ r = resolved q rc n an).
 
 Lemma handle_response_script s i f m :
   incl (s_script (fst (handle_response c s i f m))) (s_script s).
@@ -508,7 +529,9 @@ Lemma resp_hooks_cons sc sc' h o :
   resp_hooks_from sc' o -> resp_hooks_from sc (h :: o).
 Proof.
   intros Hh Hi Ho ord rq rs e [H|H]; [exfalso; eapply Hh; exact H|].
-  destruct (Ho _ _ _ _ H) as (r & R1 & R2). exists r. split; [exact R1 | apply Hi; exact R2].
+  destruct (Ho _ _ _ _ H) as (r & R1 & R2). exists r. split; [exact R1|].
+  destruct R2 as [R2|(rc & n & an & q & R2 & R3)]; [left; apply Hi; exact R2|].
+  right. exists rc, n, an, q. split; [apply Hi; exact R2 | exact R3].
 Qed.
 
 (* a request handled on a flow without stored response: a response hook fires only for the
@@ -532,13 +555,22 @@ Proof.
     split; [eapply incl_tran; eassumption|].
     eapply resp_hooks_cons; [exact Hh | exact I0 | exact E2]. }
   destruct (f_resp (apply_act a f1)) as [r|] eqn:Er.
-  { assert (Ha : a = ASetResp r).
-    { destruct a; cbn in Er; try (rewrite Hn in Er; discriminate); try discriminate. congruence. }
+  { assert (Ha : a = ASetResp r \/ exists rc n an, a = AResolve rc n an /\ r = resolved m rc n an).
+    { destruct a; cbn in Er; try (rewrite Hn in Er; discriminate); try discriminate.
+      - left. congruence.
+      - right. exists rc, n, an. split; [reflexivity | congruence]. }
+    assert (Hin : In a (s_script s)).
+    { destruct Q as [Q|Q]; [|exact Q]. destruct Ha as [Ha|(rc & n & an & Ha & _)]; congruence. }
     pose proof (handle_response_script s1 i (apply_act a f1) r) as E1.
+    pose proof (apply_act_req a f1) as Erq.
     unfold handle_response in *. destruct (pop_act s1) as [a2 s2]. cbn [fst snd] in *.
     split; [eapply incl_tran; eassumption|].
     intros ord rq rs e [H|[H|H]]; [discriminate| |].
-    - unfold hook_of in H. cbn in H. inversion H; subst. exists r. split; [reflexivity|]. apply Q. reflexivity.
+    - unfold hook_of in H. cbn [f_ord f_req f_resp f_err] in H. inversion H; subst ord rq rs e.
+      exists r. split; [reflexivity|].
+      destruct Ha as [Ha|(rc & n & an & Ha & Hr)].
+      + left. rewrite <- Ha. exact Hin.
+      + right. exists rc, n, an, m. split; [rewrite <- Ha; exact Hin|]. split; [rewrite Erq; reflexivity | exact Hr].
     - destruct (f_resp (apply_act a2 _)); [destruct H as [H|[]]; discriminate | destruct H]. }
   destruct (f_err (apply_act a f1)). { apply Herr. apply incl_refl. }
   destruct (negb (has_addr c)). { apply Herr. apply incl_refl. }
@@ -597,7 +629,9 @@ Proof.
     split; [eapply incl_tran; eassumption|].
     intros ord rq rs e Hin. apply in_app_or in Hin. destruct Hin as [Hin|Hin].
     + apply (A2 _ _ _ _ Hin).
-    + destruct (B2 _ _ _ _ Hin) as (r0 & R1 & R2). exists r0. split; [exact R1 | apply A1; exact R2].
+    + destruct (B2 _ _ _ _ Hin) as (r0 & R1 & R2). exists r0. split; [exact R1|].
+      destruct R2 as [R2|(rc & n & an & q & R2 & R3)]; [left; apply A1; exact R2|].
+      right. exists rc, n, an, q. split; [apply A1; exact R2 | exact R3].
 Qed.
 
 Lemma step_client_fresh unpack s data :
